@@ -16,7 +16,10 @@ macro_rules! conv_harness {
         #[kani::unwind(6)]
         #[kani::stub(std::rt::thread_cleanup, noop)]
         #[kani::stub(alloc::fmt::format, fmt_stub)]
-        fn $name() $body
+        fn $name() {
+            tag_init();
+            $body
+        }
     };
 }
 
@@ -33,12 +36,12 @@ macro_rules! from_int {
             kani::cover!(!in_range, "out of range");
             match r {
                 Ok(v) => {
-                    assert!(in_range, "out-of-range integer converted instead of reported (truncated)");
-                    assert!(v as i128 == x as i128, "converted value differs");
+                    vassert!(in_range, "out-of-range integer converted instead of reported (truncated)");
+                    vassert!(v as i128 == x as i128, "converted value differs");
                 }
                 Err(e) => {
                     core::mem::forget(e);
-                    assert!(!in_range, "in-range integer refused");
+                    vassert!(!in_range, "in-range integer refused");
                 }
             }
         });
@@ -65,20 +68,20 @@ macro_rules! into_int {
             kani::cover!((v as i128) > isize::MAX as i128, "above the machine word");
             match r {
                 Ok(IntV(n)) => {
-                    assert!(n as i128 == v as i128, "host integer wrapped on the way in");
+                    vassert!(n as i128 == v as i128, "host integer wrapped on the way in");
                 }
                 Ok(BigNum(b)) => {
-                    assert!((v as i128) > isize::MAX as i128 || (v as i128) < isize::MIN as i128, "non-canonical BigNum");
-                    assert!(b.as_ref().to_i128() == Some(v as i128), "BigNum differs from host value");
+                    vassert!((v as i128) > isize::MAX as i128 || (v as i128) < isize::MIN as i128, "non-canonical BigNum");
+                    vassert!(b.as_ref().to_i128() == Some(v as i128), "BigNum differs from host value");
                     core::mem::forget(b);
                 }
                 Ok(other) => {
                     core::mem::forget(other);
-                    assert!(false, "host integer became a non-integer");
+                    vassert!(false, "host integer became a non-integer");
                 }
                 Err(e) => {
                     core::mem::forget(e);
-                    assert!(false, "host integer refused");
+                    vassert!(false, "host integer refused");
                 }
             }
         });
@@ -104,12 +107,12 @@ macro_rules! from_host_int {
             match r {
                 IntV(n) => assert!(n as i128 == v as i128, "host integer wrapped on the way in"),
                 BigNum(b) => {
-                    assert!(b.as_ref().to_i128() == Some(v as i128), "BigNum differs from host value");
+                    vassert!(b.as_ref().to_i128() == Some(v as i128), "BigNum differs from host value");
                     core::mem::forget(b);
                 }
                 other => {
                     core::mem::forget(other);
-                    assert!(false, "host integer became a non-integer");
+                    vassert!(false, "host integer became a non-integer");
                 }
             }
         });
@@ -133,7 +136,7 @@ conv_harness!(conv_f64_roundtrip, {
     // mistyped
     let i: isize = kani::any();
     let bad = f64::from_steelval(&IntV(i));
-    assert!(bad.is_err(), "integer accepted where a float is declared");
+    vassert!(bad.is_err(), "integer accepted where a float is declared");
     core::mem::forget(bad);
     core::mem::forget(sv);
     core::mem::forget(back);
@@ -156,13 +159,13 @@ conv_harness!(conv_char_bool_unit, {
     assert!(matches!(char::from_steelval(&CharV(c)), Ok(d) if d == c));
     let i: isize = kani::any();
     let e1 = char::from_steelval(&IntV(i));
-    assert!(e1.is_err(), "integer accepted where a char is declared");
+    vassert!(e1.is_err(), "integer accepted where a char is declared");
     core::mem::forget(e1);
     let b: bool = kani::any();
     assert!(matches!(b.into_steelval(), Ok(BoolV(d)) if d == b));
     assert!(matches!(bool::from_steelval(&BoolV(b)), Ok(d) if d == b));
     let e2 = bool::from_steelval(&IntV(i));
-    assert!(e2.is_err(), "integer accepted where a bool is declared");
+    vassert!(e2.is_err(), "integer accepted where a bool is declared");
     core::mem::forget(e2);
     assert!(matches!(().into_steelval(), Ok(Void)));
     assert!(<() as FSV>::from_steelval(&Void).is_ok());
@@ -184,7 +187,7 @@ conv_harness!(conv_option_i32, {
     match &sv {
         Ok(s) => {
             let back = <Option<i32> as FSV>::from_steelval(s);
-            assert!(matches!(back, Ok(b) if b == o), "Option<i32> does not round-trip through into_steelval");
+            vassert!(matches!(back, Ok(b) if b == o), "Option<i32> does not round-trip through into_steelval");
             core::mem::forget(back);
         }
         Err(_) => assert!(false),
@@ -192,7 +195,7 @@ conv_harness!(conv_option_i32, {
     core::mem::forget(sv);
     let sv2: SteelVal = SteelVal::from(o);
     let back2 = <Option<i32> as FSV>::from_steelval(&sv2);
-    assert!(matches!(back2, Ok(b) if b == o), "Option<i32> does not round-trip through From");
+    vassert!(matches!(back2, Ok(b) if b == o), "Option<i32> does not round-trip through From");
     core::mem::forget(back2);
     core::mem::forget(sv2);
 });
